@@ -427,6 +427,11 @@ def run(tier: str) -> int:
         worlds.append(HistDst(mode=mode, nak=nak, closure=True, size=4, seg=2, ack_limit=1, nak_limit=1, check_limit=1, hist_depth=hd,
                               follow_modes=("ack", "unack") if tier == "thorough" else (mode,)))
     worlds.append(HistDst(mode="ack", nak="imm", closure=True, size=4, seg=2, disposition=True, ack_limit=1, nak_limit=1, hist_depth=hd, follow_modes=("ack",)))
+    # histories that end by abandoning the transaction (fault handler codes overridden): also in the call that queued a PDU
+    worlds.append(HistDst(mode="ack", nak="imm", closure=False, size=4, seg=2, ack_limit=1, nak_limit=1, hist_depth=hd, follow_modes=("ack",),
+                          faults_d={"FILE_SIZE_ERROR": "abandon", "FILE_CHECKSUM_FAILURE": "abandon", "NAK_LIMIT_REACHED": "abandon"}))
+    worlds.append(HistSrc(mode="ack", closure=False, size=2, seg=2, ack_limit=1, hist_depth=5 if tier == "quick" else 7,
+                          faults_s={"POSITIVE_ACK_LIMIT_REACHED": "abandon"}))
     for mode in ("ack", "unack"):
         worlds.append(HistSrc(mode=mode, closure=True, size=4, seg=2, ack_limit=1, hist_depth=7 if tier == "quick" else 9))
     # local entity id wider than the destination id (and vice versa)
